@@ -2445,7 +2445,7 @@ impl Doc {
 //@@ end
 
 //@@ fn src/params.rs | impl Parser for ParseFlag | fn eval
-//@@ unit params.ParseFlag.eval tags=C18,C10,C06 only=default
+//@@ unit params.ParseFlag.eval tags=C18,C10,C06,C20
 //@@ members
     open spec fn pwf(&self) -> bool { named_has_key(self.named) }
     open spec fn rel(&self, pre: State, r: Result<T, Error>, post: State) -> bool {
@@ -2589,7 +2589,7 @@ where
 //@@ end
 
 //@@ fn src/params.rs | impl ParseArgument | fn take_argument
-//@@ unit params.ParseArgument.take_argument tags=C18,C02,C06 only=default
+//@@ unit params.ParseArgument.take_argument tags=C18,C02,C06,C20
 //@@ ret r
 //@@ spec
         requires old(args).wf(), named_has_key(self.named),
@@ -3398,9 +3398,9 @@ impl crate::complete_gen::Complete {
 //@@ spec
         requires
             self.wf(),
-            // D7 (DESIGN.md 7): `self.items.len() - 1` underflows for an empty item list in completion mode; callers are not under contract
-            self.comp is Some ==> self.items.len() > 0,
-        ensures self.comp is None ==> !r, // #false_outside_completion_mode
+        ensures
+            self.comp is None ==> !r, // #false_outside_completion_mode
+            r ==> self.items.len() > 0 && self.current == Some((self.items.len() - 1) as usize), // #only_when_the_last_item_was_just_consumed
 //@@ end
 
 //@@ fn src/args.rs | impl State | fn swap_comps_with
@@ -3425,6 +3425,14 @@ impl State {
     { unimplemented!() }
     #[verifier::external_body]
     pub fn push_metavar(&mut self, meta: &'static str, help: &Option<Doc>, is_argument: bool)
+        ensures final(self).same_but_comp(*old(self)), old(self).comp is None ==> *final(self) == *old(self), old(self).comp is Some ==> final(self).comp is Some,
+    { unimplemented!() }
+    #[verifier::external_body]
+    pub fn push_flag(&mut self, named: &NamedArg)
+        ensures final(self).same_but_comp(*old(self)), old(self).comp is None ==> *final(self) == *old(self), old(self).comp is Some ==> final(self).comp is Some,
+    { unimplemented!() }
+    #[verifier::external_body]
+    pub fn push_argument(&mut self, named: &NamedArg, metavar: &'static str)
         ensures final(self).same_but_comp(*old(self)), old(self).comp is None ==> *final(self) == *old(self), old(self).comp is Some ==> final(self).comp is Some,
     { unimplemented!() }
     #[verifier::external_body]
